@@ -345,6 +345,8 @@ structure NFmt where
   quatThr : Rat
   /-- `quaternions.FLOAT_EPS` -/
   floatEps : Rat
+  /-- `xform_codes.value_set()` (nifti1.py:144-154): the codes `_chk_xform_code` accepts -/
+  validCodes : List Nat
 
 def natsToV3 (l : List Nat) (dflt : Rat) : V3 Rat :=
   ⟨(l[0]?.map (fun n : Nat => (n : Rat))).getD dflt, (l[1]?.map (fun n : Nat => (n : Rat))).getD dflt,
@@ -442,6 +444,15 @@ def NHdr.updateHeader (E : Ext) (f : NFmt) (h : NHdr) (a : Aff Rat) : Except Err
   | .error e => .error e
   | .ok best => if E.allclose a best then .ok h else .ok (h.affine2header E a)
 
+/-- `Nifti1Header._chk_sform_code` / `_chk_qform_code` with `fix=True` (nifti1.py:1934-1955), as run
+    by `check_fix` in `from_header` (image construction with a supplied header) and in `from_fileobj`
+    (every load): a code that is not in the xform table is reset to 0 (problem level 30 < error level
+    40: logged, fixed, not raised).  The other checks of the battery do not touch fields that
+    `set_sform` / `set_qform` can produce. -/
+def NHdr.checkFix (f : NFmt) (h : NHdr) : NHdr :=
+  { h with sformCode := if f.validCodes.contains h.sformCode then h.sformCode else 0,
+           qformCode := if f.validCodes.contains h.qformCode then h.qformCode else 0 }
+
 def defaultNHdr (shape : List Nat) : NHdr :=
   { shape := shape, sformCode := 0, srow := ⟨⟨0, 0, 0, 0, 0, 0, 0, 0, 0⟩, ⟨0, 0, 0⟩⟩, qformCode := 0,
     qfac := 1, pixdim := ⟨1, 1, 1⟩, quat := ⟨0, 0, 0⟩, qoff := ⟨0, 0, 0⟩ }
@@ -464,22 +475,24 @@ def NHdr.qformCoded (E : Ext) (f : NFmt) (h : NHdr) : Except Err (Option (Aff Ra
     | .ok a => .ok (some a, h.qformCode)
 
 /-- the header an image carries when it is written: `Klass(data, affine, header)` then
-    `to_file_map` (`SpatialImage.__init__` → `update_header`; `Nifti1Pair.__init__` forces
+    `to_file_map` (`from_header` → `check_fix`; `SpatialImage.__init__` → `update_header`; `Nifti1Pair.__init__` forces
     `_affine2header` when no header was given; `to_file_map` → `update_header`). -/
 def niftiSavedHeader (E : Ext) (f : NFmt) (shape : List Nat) (a : Aff Rat) (hdr : Option NHdr) :
     Except Err NHdr := do
   let h0 := match hdr with
     | none => defaultNHdr shape
-    | some h => { h with shape := shape }
+    | some h => ({ h with shape := shape } : NHdr).checkFix f
   let h1 ← h0.updateHeader E f a
   let h2 := if hdr.isNone then h1.affine2header E a else h1
   h2.updateHeader E f a
 
 /-- `load(save(img))`: the header fields are already stored-precision values, the byte level is
-    the identity (property C10), the loader takes `header.get_best_affine()` (analyze.py:972). -/
+    the identity (property C10), the loader runs the header checks (`from_fileobj(check=True)`) and
+    takes `header.get_best_affine()` (analyze.py:972). -/
 def niftiRoundtrip (E : Ext) (f : NFmt) (shape : List Nat) (a : Aff Rat) (hdr : Option NHdr) :
     Except Err NOut := do
   let h ← niftiSavedHeader E f shape a hdr
+  let h := h.checkFix f
   let aff ← h.bestAffine E f
   let q ← h.qformCoded E f
   pure ⟨aff, h.sformCoded, q⟩
